@@ -15,8 +15,10 @@ def run(ctx):
         assumptions=["signature unforgeability", "faulty members hold < 1/3 of scaled power",
                      "second sentence: unanimous_sync_invariant / unanimous_sync_decides hold for the untimed form of the "
                      "synchrony bound (F3.Net.SyncOrdered: a node that finds a round-0 phase timeout expired has been handed "
-                     "that phase's message of every honest node); that real-time delivery within the bound implies this "
-                     "ordering is argued in F3/Model/Net.lean and validated by sync-mode runs, not mechanised"],
+                     "that phase's message of every honest node); timed_sync_ordered / unanimous_timed_decides derive it from the "
+                     "real-time bound (F3.NetTimed.TimedSync: starts within Delta, delays strictly below Delta, timeouts >= 2 Delta)"],
         search=g.search("C02-"),
-        partial=["real-time synchrony => SyncOrdered (clock/latency arithmetic outside the untimed model; validated by sync-mode runs)"],
+        partial=["timed_sync_ordered (real-time bound => SyncOrdered) needs a tipset beyond the base: for a base-only unanimous chain the "
+                 "implication is refuted (timed_sync_ordered_needs_suffix; QUALITY then ends by its timer only and alarms need not be punctual) "
+                 "— the decision itself is not affected in the counterexample"],
     )
